@@ -38,14 +38,13 @@ Section W.
   Proof.
     intro Hok. induction stripes as [|pos rest IH]; intros stop it nfail c par ne ns ni; cbn [sync_loop_w sync_loop]; [reflexivity|].
     destruct (negb (stripe_enabled o _)); [apply IH|].
-    assert (G : forall A (x y : A), x = y -> x = y) by auto.
     destruct stop as [[|k]|]; [reflexivity | |];
       (cbv zeta;
        destruct (so_bail (sync_stripe hashf bs nlev o now ni c (map (fun lv => nth pos lv PNone) par) fs (faults pos) pos)); [reflexivity|];
-       cbn [filter sum_eio sum_err fold_right Nat.ltb Nat.leb andb];
        destruct (so_write (sync_stripe hashf bs nlev o now ni c (map (fun lv => nth pos lv PNone) par) fs (faults pos) pos)) as [v|];
-       [ rewrite !count_levels_ok by (auto); cbn [Nat.add Nat.eqb negb app]; rewrite write_levels_ok by auto; apply IH
-       | cbn [Nat.add Nat.eqb negb app]; apply IH ]).
+       [ rewrite !count_levels_ok by (auto); cbn [Nat.add Nat.eqb negb app filter sum_eio sum_err fold_right Nat.ltb Nat.leb andb];
+         rewrite write_levels_ok by auto; apply IH
+       | cbn [Nat.add Nat.eqb negb app filter sum_eio sum_err fold_right Nat.ltb Nat.leb andb]; apply IH ]).
   Qed.
 
   (* ---------------------------------------------------------------------------------------------------------------- *)
@@ -197,12 +196,12 @@ Section W.
        specialize (SL eq_refl);
        assert (HL1 : below_limit o (ni + so_nio (sync_stripe hashf bs nlev o now ni c (map (fun lv => nth pos lv PNone) par) fs (faults pos) pos)))
          by (unfold below_limit in *; destruct SL as [E|E]; [rewrite E, Nat.add_0_r; exact HL | right; exact E]);
-       destruct (0 <? sum_eio (filter (is_due it) q)) eqn:Ec; cbn [andb];
+       destruct (0 <? sum_eio (filter (is_due it) _)) eqn:Ec; cbn [andb];
        [ destruct (o_io_error_limit o <=? S _) eqn:El; [simpl; discriminate|];
          apply Nat.leb_gt in El;
-         destruct (0 <? sum_err (filter (is_due it) q)); [simpl; discriminate|];
+         destruct (0 <? sum_err (filter (is_due it) _)); [simpl; discriminate|];
          apply IH; right; exact El
-       | destruct (0 <? sum_err (filter (is_due it) q)); [simpl; discriminate|];
+       | destruct (0 <? sum_err (filter (is_due it) _)); [simpl; discriminate|];
          apply IH; exact HL1 ]).
   Qed.
 
@@ -233,14 +232,17 @@ Section W.
        destruct (so_bail r); [simpl; split; [exact HF | intro E; apply HL; lia]|];
        set (neio := match so_write r with Some _ => count_levels w_is_eio (wf pos) (length par) | None => 0 end);
        set (nerr := match so_write r with Some _ => count_levels w_is_err (wf pos) (length par) | None => 0 end);
-       set (q1 := filter (fun w => negb (is_due it w)) q);
-       set (seen := filter (is_due it) q);
-       assert (HF1 : Forall (fun w => rep_nonzero w = true) q1) by (apply Forall_filter; exact HF);
-       assert (HFs : Forall (fun w => rep_nonzero w = true) seen) by (apply Forall_filter; exact HF);
-       assert (HF2 : Forall (fun w => rep_nonzero w = true)
-                       (if negb (neio + nerr =? 0) then q1 ++ [mkWR (report_due m lag it) neio nerr] else q1))
-         by (destruct (negb (neio + nerr =? 0)) eqn:En; [|exact HF1]; apply Forall_app; split; [exact HF1|]; constructor; [|constructor];
+       set (qa := if negb (neio + nerr =? 0) then q ++ [mkWR (report_due m lag it) neio nerr] else q);
+       set (nf := if negb (neio + nerr =? 0) then S nfail else nfail);
+       set (q2 := filter (fun w => negb (is_due it w)) qa);
+       set (seen := filter (is_due it) qa);
+       assert (HFa : Forall (fun w => rep_nonzero w = true) qa)
+         by (unfold qa; destruct (negb (neio + nerr =? 0)) eqn:En; [|exact HF]; apply Forall_app; split; [exact HF|]; constructor; [|constructor];
              unfold rep_nonzero; simpl; exact En);
+       assert (HLa : ne + so_nerr r + (ns + so_nsilent r) + (ni + so_nio r) = 0 -> length qa = nf)
+         by (intro E; unfold qa, nf; destruct (negb (neio + nerr =? 0)); [rewrite app_length; simpl; rewrite HL by lia; lia | apply HL; lia]);
+       assert (HF2 : Forall (fun w => rep_nonzero w = true) q2) by (apply Forall_filter; exact HFa);
+       assert (HFs : Forall (fun w => rep_nonzero w = true) seen) by (apply Forall_filter; exact HFa);
        destruct (0 <? sum_eio seen) eqn:Ece; cbn [andb];
        [ destruct (o_io_error_limit o <=? S (ni + so_nio r));
          [ simpl; split; [exact HF2 | intro E; lia]
@@ -252,9 +254,30 @@ Section W.
          | apply IH; split; [exact HF2|]; intro E;
            apply Nat.ltb_ge in Ece; apply Nat.ltb_ge in Ecr;
            assert (Es : seen = []) by (apply sums_zero_nil; [exact HFs | lia | lia]);
-           assert (Eq : length q = nfail) by (apply HL; lia);
-           pose proof (filter_split_length (is_due it) q) as SPL; fold seen q1 in SPL; rewrite Es in SPL; simpl in SPL;
-           destruct (negb (neio + nerr =? 0)); [rewrite app_length; simpl; lia | lia] ] ]).
+           pose proof (filter_split_length (is_due it) qa) as SPL; fold seen q2 in SPL; rewrite Es in SPL; simpl in SPL;
+           rewrite <- SPL; apply HLa; lia ] ]).
+  Qed.
+
+  (* single-thread mode: every report is seen at its own iteration, nothing is ever left in the queue *)
+  Lemma filter_notdue_mono it neio nerr :
+    filter (fun w => negb (is_due it w)) ([] ++ [mkWR (report_due Mono (fun _ => 0) it) neio nerr]) = [].
+  Proof. simpl. unfold is_due. simpl. rewrite Nat.leb_refl. reflexivity. Qed.
+
+  Theorem mono_nothing_lost o now fs faults wf lag : forall stripes stop it nfail c par ne ns ni,
+    w_lost (sync_loop_w hashf bs nlev o now fs faults wf Mono lag stripes stop it [] nfail c par ne ns ni) = [].
+  Proof.
+    induction stripes as [|pos rest IH]; intros stop it nfail c par ne ns ni; cbn [sync_loop_w]; cbv zeta; [reflexivity|].
+    destruct (negb (stripe_enabled o _)); [apply IH|].
+    set (r := sync_stripe hashf bs nlev o now ni c (map (fun lv => nth pos lv PNone) par) fs (faults pos) pos).
+    assert (Q : forall neio nerr, filter (fun w => negb (is_due it w))
+                  (if negb (neio + nerr =? 0) then [] ++ [mkWR (report_due Mono lag it) neio nerr] else []) = []).
+    { intros neio nerr. destruct (negb (neio + nerr =? 0)); [|reflexivity]. simpl. unfold is_due. simpl. rewrite Nat.leb_refl. reflexivity. }
+    destruct stop as [[|k]|]; [reflexivity | |];
+      (destruct (so_bail r); [reflexivity|];
+       rewrite Q;
+       destruct ((0 <? _) && _); [reflexivity|];
+       destruct (0 <? _); [reflexivity|];
+       apply IH).
   Qed.
 End W.
 
@@ -270,6 +293,16 @@ Proof.
   { split; [constructor | reflexivity]. }
   fold r in K. unfold run_failing. destruct (ro_nerr (w_run r) + ro_nsilent (w_run r) + ro_nio (w_run r) =? 0) eqn:E; [|reflexivity].
   apply Nat.eqb_eq in E. specialize (K E). lia.
+Qed.
+
+(* in single-thread mode a failed parity write always gives a failing exit status (repair 55c30f5 of
+   F-C08-mono-writer-errors-lost; on the tree before it this statement was refuted by `wrun Mono 3`) *)
+Theorem write_error_exit_mono hashf bs nlev o now fs faults wf lag stripes stop c par :
+  let r := sync_loop_w hashf bs nlev o now fs faults wf Mono lag stripes stop 0 [] 0 c par 0 0 0 in
+  0 < w_nfail r -> run_failing (w_run r) = true.
+Proof.
+  intros r H. apply write_error_exit_partial. fold r.
+  unfold r. rewrite mono_nothing_lost. exact H.
 Qed.
 
 (* ---------------------------------------------------------------------------------------------------------------- *)
